@@ -99,16 +99,50 @@ def run_case(case: dict) -> dict:
         burners = []
         if case["cpu_load"]:
             burners = [subprocess.Popen([common.PY, "-S", "-c", "while True: pass"]) for _ in range(6)]
+        hang_diag = None
         try:
-            proc = subprocess.run(cmd, cwd=str(common.VERIF), env=dict(os.environ, PYTHONPATH=str(common.VERIF)),
-                                  capture_output=True, text=True, timeout=300, check=False)
+            import signal
+            import time
+            from rtmon.monitors import quiescence
+            stderr_path = work / "runner.err"
+            with open(stderr_path, "wb") as err:
+                proc = subprocess.Popen(cmd, cwd=str(common.VERIF), env=dict(os.environ, PYTHONPATH=str(common.VERIF)),
+                                        stdout=subprocess.DEVNULL, stderr=err, start_new_session=True)
+                started = time.monotonic()
+                quiet_in_a_row = 0
+                while proc.poll() is None:
+                    time.sleep(0.2)
+                    elapsed = time.monotonic() - started
+                    if elapsed > 40 and int(elapsed) % 5 == 0:
+                        # decide on state: the whole process tree of the call asleep, no CPU, no context switches
+                        diag = quiescence.diagnose(proc.pid, None, samples=4, span=1.5, scope="tree")
+                        quiet_in_a_row = quiet_in_a_row + 1 if diag["verdict"] == "quiescent" else 0
+                        if quiet_in_a_row >= 2 or elapsed > 400:
+                            hang_diag = dict(diag, elapsed=elapsed, decided=quiet_in_a_row >= 2)
+                            try:
+                                os.killpg(proc.pid, signal.SIGKILL)
+                            except ProcessLookupError:
+                                pass
+                            proc.wait()
+                            break
+            proc.stderr_text = stderr_path.read_text(errors="replace")[-600:]
         finally:
             for burner in burners:
                 burner.kill()
                 burner.wait()
+        if hang_diag is not None:
+            if hang_diag["decided"]:
+                violations.append({"key": "multi-writer-call-hangs",
+                                   "msg": f"{fmt} writers={[len(w) for w in case['writers']]} pattern={case['pattern']}: the call "
+                                          f"did not return after {hang_diag['elapsed']:.0f}s and all {hang_diag['threads']} threads of "
+                                          f"its {hang_diag['processes']} processes are asleep (no CPU, no context switches)"})
+                obs["real_process_runs"] += 1
+                return finish(case, violations, obs)
+            return {"sig": "runner-undecided", "nontrivial": False, "violations": [], "obs": {},
+                    "inconclusive": [f"multi-writer call still busy after {hang_diag['elapsed']:.0f}s: {hang_diag['reasons']}"]}
         if not (work / "out.json").is_file():
             return {"sig": "runner-failed", "nontrivial": False, "violations": [], "obs": {},
-                    "inconclusive": [f"session runner failed rc={proc.returncode}: {proc.stderr[-600:]}"]}
+                    "inconclusive": [f"session runner failed rc={proc.returncode}: {getattr(proc, 'stderr_text', '')}"]}
         out = json.loads((work / "out.json").read_text())
         obs["real_process_runs"] += 1
         label = f"{fmt} writers={[len(w) for w in case['writers']]} pattern={case['pattern']} load={case['cpu_load']}"
